@@ -222,6 +222,8 @@ class C18(Prop):
         "<=6, <=40 nodes. Compared with the model on the full observation trace, outcome and final state; oracle on the "
         "implementation alone: every block's exit state equals its entry state, rejected sets leave the state unchanged, "
         "get-and-mutate has no effect. Non-trivial = at least one block whose body changes or tries to change the backend."
+        "Later additions: a block is realised as a with-statement, as a context manager object created when the program starts and entered later, or as "
+        "a decorated function defined at the start and called later; BaseException exits; exhaustive small trees. "
     )
     assumptions = ["contextlib.contextmanager / generator semantics and importlib.util.find_spec are parameters (the latter is patched to exercise both branches)"]
 
